@@ -44,6 +44,11 @@ type Entry struct {
 	Parse   func(in []byte, typ int) Result
 }
 
+// NoSerial: entries return the parsed value without calling its serialiser (C18
+// needs values no method has been called on yet: a lazily written field is only
+// visible on first use). Serial is then empty.
+var NoSerial bool
+
 const trailingWarning = "data exists beyond length of mapping"
 
 // MappingAccepted: empty error list or only the trailing-data warning.
@@ -71,7 +76,9 @@ func kacResult(k *keys_and_cert.KeysAndCert, rem []byte, err error) Result {
 		return r
 	}
 	r.Accepted = true
-	r.Serial, r.SerErr = k.Bytes()
+	if !NoSerial {
+		r.Serial, r.SerErr = k.Bytes()
+	}
 	return r
 }
 
@@ -103,7 +110,9 @@ var Entries = []Entry{
 		d, rem, err := data.NewDate(in)
 		r := Result{Accepted: err == nil && d != nil, Err: err, Rem: rem, Value: d}
 		if d != nil {
-			r.Serial = d.Bytes()
+			if !NoSerial {
+				r.Serial = d.Bytes()
+			}
 		}
 		return r
 	}},
@@ -128,14 +137,18 @@ var Entries = []Entry{
 	{Name: "data.ReadMapping", HasRem: true, Group: "mapping", Parse: func(in []byte, _ int) Result {
 		m, rem, errs := data.ReadMapping(in)
 		r := Result{Accepted: MappingAccepted(errs), Err: firstErr(errs), Rem: rem, Value: &m}
-		r.Serial = m.Data()
+		if !NoSerial {
+			r.Serial = m.Data()
+		}
 		return r
 	}},
 	{Name: "data.NewMapping", HasRem: true, Group: "mapping", Parse: func(in []byte, _ int) Result {
 		m, rem, errs := data.NewMapping(in)
 		r := Result{Accepted: MappingAccepted(errs) && m != nil, Err: firstErr(errs), Rem: rem, Value: m}
 		if m != nil {
-			r.Serial = m.Data()
+			if !NoSerial {
+				r.Serial = m.Data()
+			}
 		}
 		return r
 	}},
@@ -144,7 +157,9 @@ var Entries = []Entry{
 		c, rem, err := certificate.ReadCertificate(in)
 		r := Result{Accepted: err == nil && c != nil, Err: err, Rem: rem, Value: c}
 		if c != nil {
-			r.Serial = c.Bytes()
+			if !NoSerial {
+				r.Serial = c.Bytes()
+			}
 		}
 		return r
 	}},
@@ -152,7 +167,9 @@ var Entries = []Entry{
 		c, rem, err := key_certificate.NewKeyCertificate(in)
 		r := Result{Accepted: err == nil && c != nil, Err: err, Rem: rem, Value: c}
 		if c != nil {
-			r.Serial = c.Bytes()
+			if !NoSerial {
+				r.Serial = c.Bytes()
+			}
 		}
 		return r
 	}},
@@ -171,7 +188,9 @@ var Entries = []Entry{
 		r := Result{Err: err, Rem: rem, Value: &d}
 		if err == nil {
 			r.Accepted = true
-			r.Serial, r.SerErr = d.Bytes()
+			if !NoSerial {
+				r.Serial, r.SerErr = d.Bytes()
+			}
 		}
 		return r
 	}},
@@ -180,7 +199,9 @@ var Entries = []Entry{
 		r := Result{Err: err, Rem: rem, Value: d}
 		if err == nil && d != nil {
 			r.Accepted = true
-			r.Serial, r.SerErr = d.Bytes()
+			if !NoSerial {
+				r.Serial, r.SerErr = d.Bytes()
+			}
 		}
 		return r
 	}},
@@ -189,7 +210,9 @@ var Entries = []Entry{
 		r := Result{Err: err, Rem: rem, Value: d}
 		if err == nil && d != nil {
 			r.Accepted = true
-			r.Serial, r.SerErr = d.Bytes()
+			if !NoSerial {
+				r.Serial, r.SerErr = d.Bytes()
+			}
 		}
 		return r
 	}},
@@ -198,7 +221,9 @@ var Entries = []Entry{
 		r := Result{Err: err, Rem: rem, Value: d}
 		if err == nil && d != nil {
 			r.Accepted = true
-			r.Serial, r.SerErr = d.Bytes()
+			if !NoSerial {
+				r.Serial, r.SerErr = d.Bytes()
+			}
 		}
 		return r
 	}},
@@ -211,7 +236,9 @@ var Entries = []Entry{
 		s, rem, err := signature.NewSignature(in, t)
 		r := Result{Accepted: err == nil && s != nil, Err: err, Rem: rem, Value: s}
 		if s != nil {
-			r.Serial = s.Bytes()
+			if !NoSerial {
+				r.Serial = s.Bytes()
+			}
 		}
 		return r
 	}},
@@ -223,7 +250,9 @@ var Entries = []Entry{
 		o, rem, err := offline_signature.ReadOfflineSignature(in, uint16(t))
 		r := Result{Accepted: err == nil, Err: err, Rem: rem, Value: &o}
 		if err == nil {
-			r.Serial = o.Bytes()
+			if !NoSerial {
+				r.Serial = o.Bytes()
+			}
 		}
 		return r
 	}},
@@ -236,7 +265,9 @@ var Entries = []Entry{
 		l, rem, err := lease.NewLeaseFromBytes(in)
 		r := Result{Accepted: err == nil && l != nil, Err: err, Rem: rem, Value: l}
 		if l != nil {
-			r.Serial = l.Bytes()
+			if !NoSerial {
+				r.Serial = l.Bytes()
+			}
 		}
 		return r
 	}},
@@ -248,7 +279,9 @@ var Entries = []Entry{
 		l, rem, err := lease.NewLease2FromBytes(in)
 		r := Result{Accepted: err == nil && l != nil, Err: err, Rem: rem, Value: l}
 		if l != nil {
-			r.Serial = l.Bytes()
+			if !NoSerial {
+				r.Serial = l.Bytes()
+			}
 		}
 		return r
 	}},
@@ -258,7 +291,9 @@ var Entries = []Entry{
 		r := Result{Err: err, Value: &ls}
 		if err == nil {
 			r.Accepted = true
-			r.Serial, r.SerErr = ls.Bytes()
+			if !NoSerial {
+				r.Serial, r.SerErr = ls.Bytes()
+			}
 		}
 		return r
 	}},
@@ -267,7 +302,9 @@ var Entries = []Entry{
 		r := Result{Err: err, Rem: rem, Value: &d}
 		if err == nil {
 			r.Accepted = true
-			r.Serial, r.SerErr = d.Bytes()
+			if !NoSerial {
+				r.Serial, r.SerErr = d.Bytes()
+			}
 		}
 		return r
 	}},
@@ -276,7 +313,9 @@ var Entries = []Entry{
 		r := Result{Err: err, Rem: rem, Value: &ls}
 		if err == nil {
 			r.Accepted = true
-			r.Serial, r.SerErr = ls.Bytes()
+			if !NoSerial {
+				r.Serial, r.SerErr = ls.Bytes()
+			}
 		}
 		return r
 	}},
@@ -285,7 +324,9 @@ var Entries = []Entry{
 		r := Result{Err: err, Rem: rem, Value: &ls}
 		if err == nil {
 			r.Accepted = true
-			r.Serial, r.SerErr = ls.Bytes()
+			if !NoSerial {
+				r.Serial, r.SerErr = ls.Bytes()
+			}
 		}
 		return r
 	}},
@@ -294,7 +335,9 @@ var Entries = []Entry{
 		r := Result{Err: err, Rem: rem, Value: &ls}
 		if err == nil {
 			r.Accepted = true
-			r.Serial, r.SerErr = ls.Bytes()
+			if !NoSerial {
+				r.Serial, r.SerErr = ls.Bytes()
+			}
 		}
 		return r
 	}},
@@ -304,7 +347,9 @@ var Entries = []Entry{
 		r := Result{Err: err, Rem: rem, Value: &a}
 		if err == nil {
 			r.Accepted = true
-			r.Serial = a.Bytes()
+			if !NoSerial {
+				r.Serial = a.Bytes()
+			}
 		}
 		return r
 	}},
@@ -313,7 +358,9 @@ var Entries = []Entry{
 		r := Result{Err: err, Rem: rem, Value: &ri}
 		if err == nil {
 			r.Accepted = true
-			r.Serial, r.SerErr = ri.Bytes()
+			if !NoSerial {
+				r.Serial, r.SerErr = ri.Bytes()
+			}
 		}
 		return r
 	}},
@@ -326,7 +373,9 @@ var Entries = []Entry{
 		k, rem, err := session_key.NewSessionKey(in)
 		r := Result{Accepted: err == nil && k != nil, Err: err, Rem: rem, Value: k}
 		if k != nil {
-			r.Serial = k.Bytes()
+			if !NoSerial {
+				r.Serial = k.Bytes()
+			}
 		}
 		return r
 	}},
@@ -338,7 +387,9 @@ var Entries = []Entry{
 		k, rem, err := session_tag.NewSessionTag(in)
 		r := Result{Accepted: err == nil && k != nil, Err: err, Rem: rem, Value: k}
 		if k != nil {
-			r.Serial = k.Bytes()
+			if !NoSerial {
+				r.Serial = k.Bytes()
+			}
 		}
 		return r
 	}},
@@ -354,7 +405,9 @@ var Entries = []Entry{
 		k, rem, err := session_tag.NewECIESSessionTag(in)
 		r := Result{Accepted: err == nil && k != nil, Err: err, Rem: rem, Value: k}
 		if k != nil {
-			r.Serial = k.Bytes()
+			if !NoSerial {
+				r.Serial = k.Bytes()
+			}
 		}
 		return r
 	}},
@@ -376,7 +429,9 @@ var Composites = []Entry{
 		r := Result{Err: err, Rem: rem, Value: kc}
 		if err == nil && kc != nil {
 			r.Accepted = true
-			r.Serial = kc.Bytes()
+			if !NoSerial {
+				r.Serial = kc.Bytes()
+			}
 		}
 		return r
 	}},
@@ -387,7 +442,9 @@ var Composites = []Entry{
 		}
 		d := ri.AsDestination()
 		r := Result{Accepted: true, Rem: rem, Value: &d}
-		r.Serial, r.SerErr = d.Bytes()
+		if !NoSerial {
+			r.Serial, r.SerErr = d.Bytes()
+		}
 		return r
 	}},
 	{Name: "router_identity.NewRouterIdentityFromKeysAndCert(destination.ReadDestination)", HasRem: true, Group: "ident", Parse: func(in []byte, _ int) Result {
@@ -399,7 +456,9 @@ var Composites = []Entry{
 		r := Result{Err: err, Rem: rem, Value: ri}
 		if err == nil && ri != nil {
 			r.Accepted = true
-			r.Serial, r.SerErr = ri.Bytes()
+			if !NoSerial {
+				r.Serial, r.SerErr = ri.Bytes()
+			}
 		}
 		return r
 	}},
@@ -412,7 +471,9 @@ var Composites = []Entry{
 		r := Result{Err: err, Rem: rem, Value: d}
 		if err == nil && d != nil {
 			r.Accepted = true
-			r.Serial, r.SerErr = d.Bytes()
+			if !NoSerial {
+				r.Serial, r.SerErr = d.Bytes()
+			}
 		}
 		return r
 	}},
